@@ -2,7 +2,7 @@
 
 R01-a AST field coverage · R01-b verbatim fallback · R01-c no defaulted sub-rewrite
 """
-from common import short, Call
+from common import short, Call, correlated_reach
 
 POS_T = ("rustc_span::Span", "rustc_ast::NodeId", "rustc_ast::AttrId", "rustc_ast::tokenstream::LazyAttrTokenStream",
          "rustc_ast::tokenstream::DelimSpan", "rustc_span::ErrorGuaranteed", "rustc_ast::tokenstream::DelimSpacing",
@@ -142,6 +142,7 @@ def run(ctx):
     variant_printers_read_the_keyword(ctx, "R01-k")
     attribute_rewrites_are_consumed(ctx, "R01-l")
     paren_peelers_look_at_attributes(ctx, "R01-m")
+    token_strings_are_consumed(ctx, "R01-n")
     C = r.rule("R01-c", "no defaulted sub-rewrite: a RewriteResult / Option<String> returned by a Rewrite method is never turned into "
                         "an empty string (unwrap_or_default, unwrap_or(String::new()), unwrap_or_else(|_| String::new()))")
     latent = {e["fn"]: e["reason"] for e in tab.get("defaulted", [])}
@@ -544,7 +545,7 @@ def token_bindings_are_consumed(ctx, rid, tab):
             label = "%s: %s `%s` (%s)" % (short(f.id), kind, name, ty)
             bad = []
             if start not in u:
-                reach = f.reachable(start, avoid_blocks=u | errb)
+                reach = correlated_reach(f, start, avoid_blocks=u | errb)
                 if any(b in reach for b in f.returns()):
                     bad = sorted({short(c.name).rsplit("::", 1)[-1] for c in f.calls() if c.bb in fmt_bbs and c.bb in reach})
             key = (short(f.id), name)
@@ -683,7 +684,7 @@ def attribute_rewrites_are_consumed(ctx, rid):
             errb = {d.bb for d in f.calls() if (d.declared or "") == "std::ops::FromResidual::from_residual"} | {
                 bb for bb, i, st in f.stmts() if st[0] == "=" and st[1][0] == 0 and st[2][0] == "agg" and isinstance(st[2][1], list)
                 and st[2][1][0] == "adt" and st[2][1][2] in ("Err", "None")}
-            reach = f.reachable(c.bb, avoid_blocks=cons | errb, avoid_edges=empty_edges)
+            reach = correlated_reach(f, c.bb, avoid_blocks=cons | errb, avoid_edges=empty_edges)
             bad = any(b in reach for b in f.returns())
             label = "%s rewrites the attributes of its node" % short(f.id)
             r.instance(rid, label, "violation" if bad else "ok", "%s:%d" % (f.file, c.line),
@@ -737,3 +738,154 @@ def paren_peelers_look_at_attributes(ctx, rid):
             r.violation(rid, "%s peels parentheses without looking at the attributes of the peeled expression" % short(f.id),
                         "`(#[a] (x))` is printed as `(x)`", ["%s:%d" % (f.file, f.line)])
     r.floor(rid, n, 1, "in-place parenthesis peelers")
+
+
+_TOKEN_FORMATTERS = ("format_visibility", "format_safety", "format_mutability", "format_defaultness", "format_constness",
+                     "format_constness_right", "format_coro", "format_extern", "format_auto", "format_async")
+
+
+def _place_of_operand(f, op):
+    """the place an operand copies from, looking through one temporary"""
+    if op[0] == "k":
+        return None
+    loc, proj = op[1]
+    if proj:
+        return (loc, proj)
+    d = f.single_def(loc)
+    if d and d[1] == "assign" and d[2][2][0] in ("use", "ref", "cfd"):
+        rv = d[2][2]
+        pl = rv[1][1] if rv[0] == "use" and rv[1][0] != "k" else rv[2] if rv[0] == "ref" else rv[1] if rv[0] == "cfd" else None
+        if pl:
+            return (pl[0], pl[1])
+    return (loc, proj)
+
+
+def _place_sig(pl):
+    return (pl[0], tuple((e[0], e[1]) if isinstance(e, list) else e for e in pl[1]))
+
+
+def token_strings_are_consumed(ctx, rid):
+    """R01-n: the text of a modifier keyword, once computed, is printed on every path that prints the node"""
+    import c17
+    from common import rvalue_operands, rvalue_places, blocks_dominate
+    p, r = ctx.p, ctx.r
+    r.rule(rid, "R01-j follows the keyword as an AST value; this rule follows it as text.  A *token string* is the result of one of "
+                "utils::format_visibility / format_safety / format_mutability / format_defaultness / format_constness(_right) / "
+                "format_coro / format_extern / format_auto, a `&str` assigned in the arms of a match on a token-bearing value "
+                "(`match polarity { Negative(_) => \"!\", Positive => \"\" }`), or a parameter that receives one of these from a "
+                "caller.  On every path from where it is computed to a non-error return on which a rewriter is called, the string is "
+                "handed on or becomes part of the result (measuring it — `len`, `is_empty` — is not printing it), or the token it "
+                "was made from is read again.  `impl<…long…>\\n    !Sync for T` printed as `Sync for T` on the wrapped layout only "
+                "is the defect class the property's own rationale names (a modifier keyword lost on the vertical path)")
+    fns = [f for f in p.by_crate["rustfmt_nightly"]]
+
+    def local_sources(f):
+        out = {}
+        for c in f.calls():
+            if c.name.rsplit("::", 1)[-1] in _TOKEN_FORMATTERS and c.dest and not c.dest[1] and c.args:
+                src = _place_of_operand(f, c.args[-1])
+                out[c.dest[0]] = (c.bb, c.name.rsplit("::", 1)[-1], _place_sig(src) if src else None)
+        defs = f.defs()
+        discrs = [(bb, st) for bb, i, st in f.stmts() if st[0] == "=" and st[2][0] == "discr" and _token_type(str(st[2][2]))]
+        for l, ty in enumerate(f.locals):
+            if l <= f.argc or l in out or ty.replace("'static ", "").strip() != "&str":
+                continue
+            ds = defs.get(l, [])
+            if len(ds) < 2 or not all(k == "assign" for bb, k, st in ds):
+                continue
+            for bb, st in discrs:
+                if all(db != bb and blocks_dominate(f, {bb}, db) for db, k, s2 in ds):
+                    out[l] = (bb, "match on %s" % _token_type(str(st[2][2])), _place_sig((st[2][1][0], st[2][1][1])))
+                    break
+        return out
+
+    bind = {f.id: local_sources(f) for f in fns}
+    bind = {k: v for k, v in bind.items() if v}
+    byid = {f.id: f for f in fns}
+    for _round in range(3):
+        added = False
+        for fid in list(bind):
+            f = byid[fid]
+            t = bind[fid]
+            for c in f.calls():
+                h = p.fns.get(c.resolved or "")
+                if h is None or h.crate != f.crate or c.name.rsplit("::", 1)[-1] in _TOKEN_FORMATTERS:
+                    continue
+                for i, a in enumerate(c.args):
+                    if a[0] == "k" or i + 1 > h.argc:
+                        continue
+                    src = a[1][0]
+                    if a[1][1]:
+                        continue
+                    if src not in t:
+                        d = f.single_def(src)
+                        if d and d[1] == "assign" and d[2][2][0] in ("use", "ref"):
+                            rv = d[2][2]
+                            pl = rv[1][1] if rv[0] == "use" and rv[1][0] != "k" else rv[2] if rv[0] == "ref" else None
+                            src = pl[0] if pl and not [e for e in pl[1] if e != "*"] else None
+                    if src in t and "str" in h.locals[i + 1] and (i + 1) not in bind.get(h.id, {}):
+                        bind.setdefault(h.id, {})[i + 1] = (0, "parameter fed by %s" % short(f.id), None)
+                        added = True
+        if not added:
+            break
+
+    def unconsumed(f, l, start, srcsig):
+        t = {l}
+        changed = True
+        while changed:
+            changed = False
+            for bb, i, st in f.stmts():
+                if st[0] == "=" and st[1][0] not in t and st[1][0] != 0:
+                    ops = [op[1][0] for op in rvalue_operands(st[2]) if op[0] != "k"] + [pl[0] for pl in rvalue_places(st[2])]
+                    if any(o in t for o in ops):
+                        t.add(st[1][0])
+                        changed = True
+            for d in f.calls():
+                if d.dest and d.dest[0] not in t and any(a[0] != "k" and a[1][0] in t for a in d.args) \
+                        and any(x in d.name for x in _CARRIERS):
+                    t.add(d.dest[0])
+                    changed = True
+        if 0 in t:
+            return []
+        cons = set()
+        for d in f.calls():
+            if d.dest and d.dest[0] == l:
+                continue
+            if any(a[0] != "k" and a[1][0] in t for a in d.args) and not any(x in d.name for x in _PURE_READS):
+                cons.add(d.bb)
+        for bb, i, st in f.stmts():
+            if st[0] == "=" and st[1][0] == 0:
+                ops = [op[1][0] for op in rvalue_operands(st[2]) if op[0] != "k"] + [pl[0] for pl in rvalue_places(st[2])]
+                if any(o in t for o in ops):
+                    cons.add(bb)
+            if srcsig is not None and st[0] == "=" and bb != start:
+                for pl in [op[1] for op in rvalue_operands(st[2]) if op[0] != "k"] + list(rvalue_places(st[2])):
+                    if _place_sig((pl[0], pl[1])) == srcsig:
+                        cons.add(bb)
+        errb = {d.bb for d in f.calls() if (d.declared or "") == "std::ops::FromResidual::from_residual"} | {
+            bb for bb, i, st in f.stmts() if st[0] == "=" and st[1][0] == 0 and st[2][0] == "agg" and isinstance(st[2][1], list)
+            and st[2][1][0] == "adt" and st[2][1][2] in ("Err", "None")}
+        reach = correlated_reach(f, start, avoid_blocks=(cons | errb) - {start})
+        if start in cons or not any(b in reach for b in f.returns()):
+            return []
+        return sorted({short(c.name).rsplit("::", 1)[-1] for c in f.calls()
+                       if (c17.formatter(c) or c.name.endswith("push_str")) and c.bb in reach and c.bb != start})
+
+    n = 0
+    for fid in sorted(bind):
+        f = byid[fid]
+        for l, (start, why, srcsig) in sorted(bind[fid].items()):
+            if l == 0:
+                continue
+            n += 1
+            name = f.local_names.get(l)
+            label = "%s: %s%s" % (short(f.id), why, " `%s`" % name if name else "")
+            bad = unconsumed(f, l, start, srcsig)
+            r.instance(rid, label, "violation" if bad else "ok", "%s:%d" % (f.file, f.line),
+                       "printed on every printing path" if not bad else "unprinted on a path calling %s" % ", ".join(bad[:4]))
+            if bad:
+                r.violation(rid, "%s is not printed on every path that prints the node" % label,
+                            "a successful return is reachable on which %s is called and the keyword text is neither handed on nor "
+                            "part of the result, and the token is not read again: the keyword is missing on that layout"
+                            % ", ".join(bad[:4]), ["%s:%d" % (f.file, f.line)])
+    r.floor(rid, n, 30, "token strings")
